@@ -201,6 +201,10 @@ type FnCtx struct {
 	usedAxioms   []string
 	inTrial      map[ast.Node]bool
 	curRecvExpr  ast.Expr
+	iterExtra    map[ast.Node][]types.Object
+	iterCount    *Val
+	arbDepth     int
+	iterLast     *Val
 	inferredNotes []string
 }
 
@@ -401,7 +405,7 @@ func seqAxioms(s Sort) []string {
 	n := sortName(s)
 	S := string(s)
 	ax := []string{
-		fmt.Sprintf("(forall ((s %s)) (! (>= (len_%s s) 0) :pattern ((len_%s s))))", S, n, n),
+		fmt.Sprintf("(forall ((s %s)) (! (and (>= (len_%s s) 0) (<= (len_%s s) 4611686018427387904)) :pattern ((len_%s s))))", S, n, n, n),
 		fmt.Sprintf("(= (len_%s empty_%s) 0)", n, n),
 		fmt.Sprintf("(forall ((s %s)) (! (=> (= (len_%s s) 0) (= s empty_%s)) :pattern ((len_%s s))))", S, n, n, n),
 		// sub
@@ -803,6 +807,11 @@ func (c *FnCtx) merge(sts []*State) *State {
 		same := true
 		for i, s := range sts {
 			terms[i] = s.ghost[k]
+			if terms[i] == "" {
+				if gv := c.V.specs.GhostVars[k]; gv != nil {
+					terms[i] = c.ghostGet(s, gv)
+				}
+			}
 			if terms[i] != terms[0] {
 				same = false
 			}
@@ -812,7 +821,7 @@ func (c *FnCtx) merge(sts []*State) *State {
 			continue
 		}
 		gv := c.V.specs.GhostVars[k]
-		f := c.fresh("g_"+k, gv.Sort)
+		f := c.fresh("g_"+sanitizeSym(k), gv.Sort)
 		c.defineMerged(f, rests, terms)
 		out.ghost[k] = f
 	}
